@@ -42,24 +42,32 @@ BASES = {"dict": "DataClassDictMixin", "plain": "", "orjson": "DataClassORJSONMi
          "json": "DataClassJSONMixin", "yaml": "DataClassYAMLMixin"}
 
 
-def hooks_src(name, ctx, poison, wrap_post):
+ALL_HOOKS = ("pre_ser", "post_ser", "pre_de", "post_de")
+
+
+def hooks_src(name, ctx, poison, wrap_post, which=ALL_HOOKS):
     cargs = ", context=None" if ctx else ""
     clog = ", id(context) if context is not None else None" if ctx else ", 'noctx'"
-    lines = [
-        f"    def __pre_serialize__(self{cargs}):",
-        f"        LOG.append(('pre_ser', '{name}', id(self){clog}))",
-        "        return self",
-        f"    def __post_serialize__(self, d{cargs}):",
-        f"        LOG.append(('post_ser', '{name}', id(self){clog}))",
-    ]
-    if wrap_post:
-        lines.append(f"        d = dict(d); d['_by'] = '{name}'")
-    lines += ["        return d", "    @classmethod", "    def __pre_deserialize__(cls, d):",
-              f"        LOG.append(('pre_de', '{name}', None, None))"]
-    if poison or wrap_post:
-        lines.append("        d = {k: v for k, v in d.items() if k not in ('_poison', '_by')}")
-    lines += ["        return d", "    @classmethod", "    def __post_deserialize__(cls, obj):",
-              f"        LOG.append(('post_de', '{name}', id(obj), None))", "        return obj"]
+    lines = []
+    if "pre_ser" in which:
+        lines += [f"    def __pre_serialize__(self{cargs}):",
+                  f"        LOG.append(('pre_ser', '{name}', id(self){clog}))",
+                  "        return self"]
+    if "post_ser" in which:
+        lines += [f"    def __post_serialize__(self, d{cargs}):",
+                  f"        LOG.append(('post_ser', '{name}', id(self){clog}))"]
+        if wrap_post:
+            lines.append(f"        d = dict(d); d['_by'] = '{name}'")
+        lines.append("        return d")
+    if "pre_de" in which:
+        lines += ["    @classmethod", "    def __pre_deserialize__(cls, d):",
+                  f"        LOG.append(('pre_de', '{name}', None, None))"]
+        if poison or wrap_post:
+            lines.append("        d = {k: v for k, v in d.items() if k not in ('_poison', '_by')}")
+        lines.append("        return d")
+    if "post_de" in which:
+        lines += ["    @classmethod", "    def __post_deserialize__(cls, obj):",
+                  f"        LOG.append(('post_de', '{name}', id(obj), None))", "        return obj"]
     return "\n".join(lines) + "\n"
 
 
@@ -123,10 +131,24 @@ def gen_family(rng):
             else:
                 fields.append(f"    me{i}: Optional[Self] = None")
                 spec.append((f"me{i}", "opt", [name]))
-        src = "@dataclass\nclass " + name + (f"({base})" if base else "") + ":\n" + "\n".join(fields) + "\n" + cfg
-        if name != hookless:
-            src += hooks_src(name, ctx, poison, wrap_post)
-        classes[name] = {"src": src, "spec": spec, "hooks": name != hookless, "vfield": f"v{i}"}
+        # which hooks the class declares: all four, or a subset (e.g. a post hook without its pre hook); the
+        # key-removing / key-adding variants need both ends, so they keep all four
+        which = ALL_HOOKS if (poison or wrap_post or rng.random() < 0.5) else tuple(
+            h for h in ALL_HOOKS if h in rng.choice([("post_ser", "pre_de", "post_de"), ("pre_ser", "pre_de", "post_de"), ("post_ser", "post_de"),
+                                                     ("pre_ser", "post_ser"), ("pre_de", "post_de"), ("post_ser",), ("post_de",)]))
+        if name == hookless:
+            which = ()
+        if which and rng.random() < 0.2:
+            # diamond: the hooks are declared on the LATER of two branches that share a (hook-less) base
+            b = f"({base})" if base else ""
+            src = (f"@dataclass\nclass Base_{name}{b}:\n    pass\n"
+                   f"@dataclass\nclass Own_{name}(Base_{name}):\n" + "\n".join(fields) + "\n"
+                   f"@dataclass\nclass Aud_{name}(Base_{name}):\n" + hooks_src(name, ctx, poison, wrap_post, which)
+                   + f"@dataclass\nclass {name}(Own_{name}, Aud_{name}):\n" + (cfg or "    pass\n"))
+        else:
+            src = "@dataclass\nclass " + name + (f"({base})" if base else "") + ":\n" + "\n".join(fields) + "\n" + cfg
+            src += hooks_src(name, ctx, poison, wrap_post, which)
+        classes[name] = {"src": src, "spec": spec, "hooks": bool(which), "which": which, "vfield": f"v{i}"}
     return {"ctx": ctx, "base_key": base_key, "names": names, "classes": classes, "poison": poison, "wrap_post": wrap_post, "hookless": hookless, "lazy": lazy}
 
 
@@ -158,12 +180,17 @@ def walk(x, out, hooked, order):
     """expected trace: pre(x), children in field order, post(x); order='ser' or 'post_de'."""
     if dataclasses.is_dataclass(x) and not isinstance(x, type):
         name = type(x).__name__
-        if order == "ser" and name in hooked:
+        which = hooked.get(name, ())
+        if order == "ser" and "pre_ser" in which:
             out.append(("pre_ser", name, id(x)))
+        if order == "pre_de" and "pre_de" in which:
+            out.append(("pre_de", name, None))
         for f in dataclasses.fields(x):
             walk(getattr(x, f.name), out, hooked, order)
-        if name in hooked:
-            out.append(("post_ser" if order == "ser" else "post_de", name, id(x)))
+        if order == "ser" and "post_ser" in which:
+            out.append(("post_ser", name, id(x)))
+        if order == "post_de" and "post_de" in which:
+            out.append(("post_de", name, id(x)))
     elif isinstance(x, (list, tuple)):
         for i in x:
             walk(i, out, hooked, order)
@@ -193,7 +220,7 @@ def run_case(seed, tier, rec, st):
         mod = fam.module
         root = famd["names"][0]
         Root = getattr(mod, root)
-        hooked = {n for n in famd["names"] if famd["classes"][n]["hooks"]}
+        hooked = {n: famd["classes"][n]["which"] for n in famd["names"] if famd["classes"][n]["hooks"]}
         ctxobj = {"c": seed}
         kw = {"context": ctxobj} if famd["ctx"] else {}
         entries = []
@@ -278,9 +305,11 @@ def run_case(seed, tier, rec, st):
                 exp_post = []
                 walk(r, exp_post, hooked, "post_de")
                 n_pre = sum(1 for e in events if e[0] == "pre_de")
+                exp_pre = []
+                walk(r, exp_pre, hooked, "pre_de")
                 # pre_deserialize may additionally run for union candidates that are then rejected (the property pins
                 # only its order); every instance of the result must have had it, which the poisoned key verifies
-                if sorted(got_post) != sorted(exp_post) or n_pre < len(exp_post):
+                if sorted(got_post) != sorted(exp_post) or n_pre < len(exp_pre):
                     from collections import Counter
                     extra = Counter((a, b) for a, b, c in got_post) - Counter((a, b) for a, b, c in exp_post)
                     missing = Counter((a, b) for a, b, c in exp_post) - Counter((a, b) for a, b, c in got_post)
